@@ -41,6 +41,7 @@ type NodeOpts struct {
 	Metrics      *RecMetrics       // default: recording, not forwarding
 	NoIdleYield  bool              // leave the sequencer busy-spinning as in production
 	SkipInit     bool              // do not call SetCurrentRevision (the workload performs the election itself)
+	EmptyPrefix  bool              // keep Config.Prefix == "" (the --key-prefix default) instead of the harness prefix
 	TrackNotify  bool              // record every notify deposit (C04 conservation)
 	PointHandler func(name string, arg uint64)
 }
@@ -72,7 +73,7 @@ func NewNode(o NodeOpts) *Node {
 	if o.StartRev == 0 {
 		o.StartRev = 1000
 	}
-	if o.Config.Prefix == "" {
+	if o.Config.Prefix == "" && !o.EmptyPrefix {
 		o.Config.Prefix = Prefix
 	}
 	if o.Config.Identity == "" {
